@@ -43,6 +43,16 @@ FUNCS = {
     # parameter spelled like the global a: it shadows the global inside the function
     "shd": dict(c="char shd(char a) { a = a + 1; return a; }", params=[("shd_a", 8)],
                 body=[{"k": "expr", "e": {"k": "asg", "op": "=", "lhs": V("shd_a"), "e": {"k": "bin", "op": "+", "l": V("shd_a"), "r": N(1)}}}, {"k": "return", "e": V("shd_a")}], calls=[]),
+    "r2": dict(c="char r2() { if (a) return 2; return 1; }", params=[],
+               body=[{"k": "if", "c": V("a"), "t": [{"k": "return", "e": N(2)}], "e": []}, {"k": "return", "e": N(1)}], calls=[]),
+    "r3": dict(c="char r3(char x) { if (x == 1) return 7; if (x < 1) return 9; return x; }", params=[("r3_x", 8)],
+               body=[{"k": "if", "c": {"k": "bin", "op": "==", "l": V("r3_x"), "r": N(1)}, "t": [{"k": "return", "e": N(7)}], "e": []},
+                     {"k": "if", "c": {"k": "bin", "op": "<", "l": V("r3_x"), "r": N(1)}, "t": [{"k": "return", "e": N(9)}], "e": []}, {"k": "return", "e": V("r3_x")}], calls=[]),
+    # signed parameter compared with a positive constant (BMI/BPL paths), with an if of its own
+    "sgn": dict(c="char sgn(signed char v) { if (v >= 1) { if (v >= 100) return 2; return 1; } return 0; }", params=[("sgn_v", 8, True)],
+                body=[{"k": "if", "c": {"k": "bin", "op": ">=", "l": V("sgn_v"), "r": N(1)},
+                       "t": [{"k": "if", "c": {"k": "bin", "op": ">=", "l": V("sgn_v"), "r": N(100)}, "t": [{"k": "return", "e": N(2)}], "e": []}, {"k": "return", "e": N(1)}], "e": []},
+                      {"k": "return", "e": N(0)}], calls=[]),
     "z0": dict(c="void z0() { Y = 0; }", params=[], body=[{"k": "expr", "e": {"k": "asg", "op": "=", "lhs": V("Y"), "e": N(0)}}], calls=[]),
     "m2": dict(c="char m2(char x) { if (x < 4) return f(x); return x; }", params=[("m2_x", 8)],
                body=[{"k": "if", "c": {"k": "bin", "op": "<", "l": V("m2_x"), "r": N(4)},
@@ -95,9 +105,10 @@ def vt_for(addr, fnames=(), extra=None):
         if d["name"] in addr:
             vt[d["name"]] = dict(kind=d["kind"], w=d["w"], sg=d["sg"], n=d["n"], addr=addr[d["name"]], io=False)
     for f in closure(fnames):
-        for (pn, w) in FUNCS[f]["params"]:
+        for prm in FUNCS[f]["params"]:
+            pn, w = prm[0], prm[1]
             if pn in addr:
-                vt[pn] = dict(kind="s", w=w, sg=False, n=1, addr=addr[pn], io=False)
+                vt[pn] = dict(kind="s", w=w, sg=(len(prm) > 2 and prm[2]), n=1, addr=addr[pn], io=False)
     for e in (extra or []):
         if e["name"] in addr:
             vt[e["name"]] = dict(kind=e["kind"], w=e["w"], sg=e["sg"], n=e["n"], addr=addr[e["name"]], io=e.get("io", False))
@@ -109,4 +120,4 @@ def vt_for(addr, fnames=(), extra=None):
 
 
 def fs_for(fnames):
-    return {f: dict(params=[p for (p, _) in FUNCS[f]["params"]], body=FUNCS[f]["body"] or []) for f in closure(fnames)}
+    return {f: dict(params=[p[0] for p in FUNCS[f]["params"]], body=FUNCS[f]["body"] or []) for f in closure(fnames)}
